@@ -237,6 +237,7 @@ type Record struct {
 	Violations   []Violation     `json:"violations"`
 	Plan         json.RawMessage `json:"plan"`
 	Sample       string          `json:"sample"`
+	BaseDigests  [][]uint64      `json:"base_digests"`
 	NoisyOps     []string        `json:"noisy_ops"`
 	SlowOps      []string        `json:"slow_ops"`
 	NoisyDiff    string          `json:"noisy_diff"`
@@ -743,6 +744,7 @@ func minimise(bin string, p *Plan, key string, budget int, deadline time.Time) (
 // ---- main check ----
 
 type tierCfg struct {
+	coldJobs   int // cold-order oracle on every coldJobs-th job (1 = all)
 	swarm      int
 	detSeeds   int
 	stallLimit time.Duration
@@ -751,8 +753,8 @@ type tierCfg struct {
 const swarmBatch = 25
 
 var tiers = map[string]tierCfg{
-	"quick":    {swarm: 1500, detSeeds: 8, stallLimit: 90 * time.Second},
-	"thorough": {swarm: 100000, detSeeds: 32, stallLimit: 180 * time.Second},
+	"quick":    {coldJobs: 3, swarm: 1500, detSeeds: 8, stallLimit: 90 * time.Second},
+	"thorough": {coldJobs: 1, swarm: 100000, detSeeds: 32, stallLimit: 180 * time.Second},
 }
 
 func seedFromEnv() uint64 {
@@ -956,6 +958,10 @@ func main() {
 		det.resultMismatch = nil
 	}
 
+	// cold-order oracle: first runs of evenly spaced private jobs, re-executed
+	// sequentially in reverse task order in fresh processes
+	coldViol, coldChecked := coldOrderCheck(bin, seed, *tier, recs, jobs, tc.coldJobs)
+
 	// violations
 	known := loadKnown()
 	type group struct {
@@ -998,6 +1004,13 @@ func main() {
 	if harnessRace != "" {
 		trouble("a data race was reported whose frames are all outside the library (harness bug):\n%s", harnessRace)
 	}
+	for i := range coldViol {
+		cv := &coldViol[i]
+		if groups[cv.v.Key] == nil {
+			groups[cv.v.Key] = &group{key: cv.v.Key}
+			keys = append(keys, cv.v.Key)
+		}
+	}
 	for _, m := range det.resultMismatch {
 		k := "nondeterministic-result:" + m.fams
 		if groups[k] == nil {
@@ -1036,6 +1049,22 @@ func main() {
 			continue
 		}
 		nviol++
+		if len(g.recs) == 0 && strings.HasPrefix(k, "order-dependence:") {
+			for i := range coldViol {
+				cv := &coldViol[i]
+				if cv.v.Key != k {
+					continue
+				}
+				path := filepath.Join(outDir, "replays", "C19-cold-"+sanitize(k)+".json")
+				os.MkdirAll(filepath.Dir(path), 0o755)
+				os.WriteFile(path, cv.plan, 0o644)
+				fmt.Printf("C19 violated: %s\n  class=order-dependence (cold-order oracle): %s\n", k, cv.v.Detail)
+				fmt.Printf("VIOLATION property=C19 replay=%s\n", path)
+				rc = 1
+				break
+			}
+			continue
+		}
 		if strings.HasPrefix(k, "nondeterministic-result:") {
 			for _, m := range det.resultMismatch {
 				if "nondeterministic-result:"+m.fams == k {
@@ -1149,7 +1178,7 @@ func main() {
 		rc = 1
 	}
 
-	writeEvidence(*tier, seed, digest, info, ii, recs, cov, det, buildS, simWall, time.Since(t0).Seconds(), nviol, workers, len(jobs))
+	writeEvidence(*tier, seed, digest, info, ii, recs, cov, det, buildS, simWall, time.Since(t0).Seconds(), nviol, workers, len(jobs), coldChecked)
 	if rc == 0 {
 		fmt.Printf("C19 held on everything explored (%d simulated runs, %d with mid-operation pre-emption)\n", len(recs), countPreempted(recs))
 	}
@@ -1210,6 +1239,100 @@ func mergeCov(a, b *covRec) {
 	if b.WallS > a.WallS {
 		a.WallS = b.WallS
 	}
+}
+
+// ---- cold-order oracle ----
+
+type coldFinding struct {
+	v    Violation
+	plan []byte
+}
+
+// coldOrderCheck re-executes the first run of evenly spaced jobs in fresh processes
+// (sequentially, last task first, nothing else before) and compares each operation's
+// outcome with the sequential outcome recorded by the main exploration.
+func coldOrderCheck(bin string, seed uint64, tier string, recs []Record, jobs [][2]int, n int) ([]coldFinding, int) {
+	byIdx := map[uint64]*Record{}
+	for i := range recs {
+		byIdx[recs[i].Index] = &recs[i]
+	}
+	var cand []int
+	for j := range jobs {
+		if r := byIdx[uint64(jobs[j][0])]; r != nil && r.Mode != "recycle" && r.NTasks >= 2 && len(r.BaseDigests) > 0 {
+			cand = append(cand, j)
+		}
+	}
+	if len(cand) == 0 || n <= 0 {
+		return nil, 0
+	}
+	// n > 0: every n-th candidate job, the phase rotating with the seed; n == 1: all
+	var picked []int
+	for i := range cand {
+		if (uint64(i)+seed)%uint64(n) == 0 {
+			picked = append(picked, cand[i])
+		}
+	}
+	var mu sync.Mutex
+	var out []coldFinding
+	checked := 0
+	var wg sync.WaitGroup
+	ch := make(chan int, len(picked))
+	for _, j := range picked {
+		ch <- j
+	}
+	close(ch)
+	for w := 0; w < runtime.NumCPU(); w++ {
+		wg.Add(1)
+		go func(w int) {
+			defer wg.Done()
+			for j := range ch {
+				idx := jobs[j][0]
+				r := runWorker(bin, fmt.Sprintf("cold%d", w), []string{"-seed", strconv.FormatUint(seed, 10), "-tier", tier,
+					"-from", strconv.Itoa(idx), "-to", strconv.Itoa(idx + 1), "-coldorder"}, 2, 120*time.Second)
+				if r.hung || r.err != nil || len(r.recs) == 0 {
+					continue
+				}
+				cold := &r.recs[0]
+				ref := byIdx[uint64(idx)]
+				mu.Lock()
+				checked++
+				for t := range cold.BaseDigests {
+					if t >= len(ref.BaseDigests) {
+						break
+					}
+					for o := range cold.BaseDigests[t] {
+						if o >= len(ref.BaseDigests[t]) {
+							break
+						}
+						a, b := ref.BaseDigests[t][o], cold.BaseDigests[t][o]
+						if a == 0 || b == 0 || a == b {
+							continue
+						}
+						var plan map[string]interface{}
+						json.Unmarshal(cold.Plan, &plan)
+						name := "?"
+						if ts, ok := plan["tasks"].([]interface{}); ok && t < len(ts) {
+							if ops, ok := ts[t].([]interface{}); ok && o < len(ops) {
+								if m, ok := ops[o].(map[string]interface{}); ok {
+									name = fmt.Sprint(m["fam"], "/", m["name"])
+								}
+							}
+						}
+						plan["cold_order_check"] = true
+						pb, _ := json.MarshalIndent(plan, "", " ")
+						out = append(out, coldFinding{v: Violation{Class: "order-dependence", Key: "order-dependence:" + name, Task: t, Op: o,
+							Detail: fmt.Sprintf("run %d, task %d op %d: the sequential outcome in a fresh process where the LAST task's operations touch the library first differs from the sequential outcome of the main exploration (digest %x vs %x): the result depends on who called first", idx, t, o, b, a)}, plan: pb})
+						mu.Unlock()
+						goto next
+					}
+				}
+				mu.Unlock()
+			next:
+			}
+		}(w)
+	}
+	wg.Wait()
+	return out, checked
 }
 
 // ---- determinism self-test ----
